@@ -58,6 +58,20 @@ def gen_null_case(rng, kind=None):
     return {'cfg': cfg, 'sources': [src], 'doc': [{'id': EX + 'tm/T', 'src': 'S0', 'nonasserted': False, 'subj': subj, 'sjoins': [], 'classes': [], 'sgraphs': [], 'poms': poms}]}
 
 
+def duckdb_may_retype(case):
+    """a tabular view is read by DuckDB with type detection: a column whose non-empty cells all look like numbers, booleans,
+    dates or NaN is not a string column there (C10 records that); such tables are not null-placement cases"""
+    import re
+    for s in case['sources']:
+        if s.get('kind') != 'view':
+            continue
+        for j in range(len(s['cols'])):
+            col = [r[j] for r in s['rows'] if isinstance(r[j], str) and r[j] != '']
+            if col and all(re.fullmatch(r'\s*([-+]?(\d+\.?\d*|\.\d+)([eE][-+]?\d+)?|nan|NaN|inf|true|false|TRUE|FALSE|True|False|\d{4}-\d\d-\d\d.*)\s*', v) for v in col):
+                return True
+    return False
+
+
 def features(case):
     s = case['sources'][0]
     return {'kind:' + s['kind'] + (':' + s['null_style'] if 'null_style' in s else ''), 'na:' + ','.join(case['cfg'].get('na', ['<default>']))}
@@ -71,7 +85,7 @@ def run(ctx, res):
                 'Parquet, Feather, ORC, Excel, DuckDB tabular view, SQLite table and SQLite query, x 5 na_values settings x rules referencing different column subsets; '
                 'implementation against the Engine model (reader behaviour per kind) and the Spec; plus a scan of every output term for None / nan / <NA> / NaT not present in the data; '
                 'distinct = distinct case; non-trivial = at least one referenced NULL and one statement')
-    cases = [gen_null_case(ctx.rng) for _ in range(ctx.scale(200, 5000))]
+    cases = [c for c in (gen_null_case(ctx.rng) for _ in range(ctx.scale(200, 5000))) if not duckdb_may_retype(c)]
     # NULL join keys on both sides (a NULL never matches, not even another NULL), over several source kinds
     from .c07 import gen_join_case
     for _ in range(ctx.scale(90, 2000)):
